@@ -66,3 +66,59 @@ Fixpoint bad_idx {A} (f : A -> bool) (l : list A) (i : nat) : list nat :=
   | x :: r => if f x then bad_idx f r (S i) else i :: bad_idx f r (S i)
   end.
 Definition hmismatches (g : hcfg) (ks : list hcase) : list nat := bad_idx (hcase_ok g) ks 0.
+
+(* ---- bursts: frames of one connection written back to back, the message type varied ----
+
+   A burst case: connection 0 first makes the calls of [b_setup] one by one (each answered before
+   the next is written), then writes [b_burst] back to back without reading, all of it addressed
+   to ONE object, and then reads: it repeats a barrier call to that object until the object itself
+   answers it (a barrier refused by dispatch is repeated), so every answer to the burst has arrived.
+   [b_got] is what it read after the setup, barrier answers left out.
+
+   Which frames of a burst find the consumer queue full depends on the schedule, so the model is
+   run on ONE schedule — the slow client: every frame is settled and the answers read before the
+   next one is sent, nothing is refused — and the observation is accepted when, frame by frame, it
+   is what that schedule gives or what the rule of [hstep] for a full queue gives ([LProc]: a
+   call is answered with an error by dispatch, every other type is dropped without an answer),
+   which needs at least [ConsumerCap] earlier frames in the burst.  The harness builds bursts whose
+   frames do not depend on each other (every user id at most once), so that an object's answer to a
+   frame does not depend on which other frames were refused.  Events are left out of the
+   accounting (bursts do not emit).  The probes do not depend on the schedule at all
+   (C12_holds_probe): they must be what the model gives. *)
+Record hburst := {
+  b_setup : list hframe;
+  b_burst : list hframe;
+  b_got : list (N * N * N);
+  b_probes : N * N * N;
+  b_obj2 : N }.
+
+Fixpoint drain (g : hcfg) (fuel : nat) (c : nat) (st : hstate) : hstate :=
+  match fuel with
+  | O => st
+  | S k => match hstep std_cls g st (HRead c) with Some st' => drain g k c st' | None => st end
+  end.
+Definition out_len (st : hstate) (c : nat) : nat :=
+  match nth_error (conns st) c with Some x => List.length (c_out x) | None => O end.
+Definition send_read (g : hcfg) (st : hstate) (f : hframe) : hstate :=
+  let st' := send_settle g st (O, f) in drain g (out_len st' O) O st'.
+Definition received_of (st : hstate) (c : nat) : list (N * N * N) :=
+  match nth_error (conns st) c with Some x => received x | None => [] end.
+
+Definition ans_of (i : N) (l : list (N * N * N)) : list (N * N * N) :=
+  filter (fun a => (snd a =? i) && negb (fst (fst a) =? 5)) l.
+Definition frame_ok (model obs : list (N * N * N)) (jf : nat * hframe) : bool :=
+  let f := snd jf in
+  let o := ans_of (f_id f) obs in
+  eqb_lt o (ans_of (f_id f) model) ||
+  (Nat.leb ConsumerCap (fst jf) &&
+   (if f_type f =? T_call then eqb_lt o [(3, f_act f, f_id f)] else match o with [] => true | _ => false end)).
+
+Definition hburst_ok (g : hcfg) (k : hburst) : bool :=
+  let st1 := fold_left (send_read g) (b_setup k) (connect g 1 (hinit_of (b_obj2 k))) in
+  let st2 := fold_left (send_read g) (b_burst k) st1 in
+  let model := skipn (List.length (received_of st1 O)) (received_of st2 O) in
+  forallb (frame_ok model (b_got k)) (combine (seq 0 (List.length (b_burst k))) (b_burst k)) &&
+  forallb (fun a => (fst (fst a) =? 5) || existsb (fun f => f_id f =? snd a) (b_burst k)) (b_got k) &&
+  (probe_code g st2 1 =? fst (fst (b_probes k))) && (probe_code g st2 2 =? snd (fst (b_probes k))) &&
+  (probe_code g st2 3 =? snd (b_probes k)).
+Definition bmismatches (g : hcfg) (ks : list hburst) : list nat := bad_idx (hburst_ok g) ks 0.
